@@ -451,6 +451,53 @@ func runC01(c *Ctx, tier string) {
 		}
 	}
 
+	// ---- O7: the type scope handed to workers is private to a stream
+	c.Rule("C01-O7", "per-stream type scope is immutable once handed to workers: a work item carries its localctx by value, and localctx.reset installs fresh context and mapper objects instead of resetting the ones in-flight workers still use")
+	if wt := p.Type("zio/zngio", "work"); wt == nil {
+		c.Undecided("C01-O7", "zio/zngio.work", "type does not resolve")
+	} else if st, ok := wt.Underlying().(*types.Struct); ok {
+		for i := 0; i < st.NumFields(); i++ {
+			if st.Field(i).Name() == "local" {
+				if _, isPtr := st.Field(i).Type().(*types.Pointer); isPtr {
+					c.Fail("C01-O7", "zio/zngio.work.local", st.Field(i).Pos(), "work items share the parser's localctx by pointer: a worker decoding a frame from before an EOS maps type IDs through the context of the stream after it")
+				} else {
+					c.OK("C01-O7", "zio/zngio.work.local", st.Field(i).Pos(), "copied by value into each work item")
+				}
+			}
+		}
+	}
+	if rs := p.Func("(*zio/zngio.localctx).reset"); rs == nil {
+		c.Undecided("C01-O7", "(*zio/zngio.localctx).reset", "anchor does not resolve")
+	} else {
+		fresh := map[string]bool{}
+		inplace := false
+		for _, ci := range allCalls(rs) {
+			n := calleeName(ci.Common())
+			if n == "(*super.Context).Reset" {
+				inplace = true
+			}
+		}
+		for _, fs := range fieldStores(p, "zctx") {
+			if fs.fn == rs {
+				if call, ok := stripConv(fs.store.Val).(*ssa.Call); ok && calleeName(call.Common()) == "super.NewContext" {
+					fresh["zctx"] = true
+				}
+			}
+		}
+		for _, fs := range fieldStores(p, "mapper") {
+			if fs.fn == rs {
+				if call, ok := stripConv(fs.store.Val).(*ssa.Call); ok && calleeName(call.Common()) == "super.NewMapper" {
+					fresh["mapper"] = true
+				}
+			}
+		}
+		if fresh["zctx"] && fresh["mapper"] && !inplace {
+			c.OK("C01-O7", "(*zio/zngio.localctx).reset", rs.Pos(), "a new stream gets a new local context and a new mapper")
+		} else {
+			c.Fail("C01-O7", "(*zio/zngio.localctx).reset", rs.Pos(), "the local type context / mapper is reset in place at end-of-stream: workers still decoding frames of the previous stream look their type IDs up in the emptied (or refilled) tables and produce wrong types or `type ID not in context`")
+		}
+	}
+
 	// ---- O4 (shared with C11)
 	runC01Channels(c, "C01")
 
